@@ -12,11 +12,12 @@ import (
 )
 
 type zzReader struct {
-	target uint64
-	done   bool
-	got    *zh.Hdr
-	err    error
-	cancel context.CancelFunc
+	target    uint64
+	done      bool
+	got       *zh.Hdr
+	err       error
+	cancel    context.CancelFunc
+	cancelled bool
 }
 
 // ZzC12 interleaves R readers waiting for future heights with appends (contiguous, gapped, out of
@@ -34,13 +35,15 @@ func ZzC12() {
 	d.gates = true
 
 	// what the writer will append: one or two batches out of chain[3..5]
-	type app struct{ i, j int }
-	plans := [][]app{
-		{{3, 3}},         // contiguous
-		{{4, 4}},         // gapped: 4 (index 3) is never appended
-		{{5, 5}, {3, 4}}, // out of order: gap filled later
-		{{3, 5}},         // one batch
-		{{4, 5}},         // gapped batch
+	// each batch is a list of chain indexes handed to one Append call
+	plans := [][][]int{
+		{{3}},         // contiguous
+		{{4}},         // gapped: index 3 is never appended
+		{{5}, {3, 4}}, // out of order: gap filled later
+		{{3, 4, 5}},   // one batch
+		{{4, 5}},      // gapped batch
+		{{3, 5}},      // one batch that advances the head AND carries a detached header
+		{{3, 4}, {5}}, // two contiguous batches
 	}
 	plan := plans[zz.Choice("plan", len(plans))]
 	appended := map[int]bool{}
@@ -56,13 +59,14 @@ func ZzC12() {
 			rd.done = true
 		}()
 	}
-	cancelFirst := zz.Bool("cancel.first")
-	for _, a := range plan {
+	for _, batch := range plan {
 		zz.Gate("writer:append") // lets the readers reach their next datastore access first (or not)
-		zz.Assert(s.Append(ctx, chain[a.i:a.j+1]...) == nil, "Append ok")
-		for k := a.i; k <= a.j; k++ {
+		hs := make([]*zh.Hdr, len(batch))
+		for n, k := range batch {
+			hs[n] = chain[k]
 			appended[k] = true
 		}
+		zz.Assert(s.Append(ctx, hs...) == nil, "Append ok")
 	}
 	zz.Gate("writer:sync")
 	zz.Assert(s.Sync(ctx) == nil, "Sync ok")
@@ -88,16 +92,27 @@ func ZzC12() {
 			}
 		}
 	}
-	// cancellation always releases a caller
-	if cancelFirst {
-		for _, rd := range readers {
+	// cancellation releases exactly the cancelled callers; the others keep waiting for their height
+	anyCancel := false
+	for r, rd := range readers {
+		if zz.Bool("cancel." + zzItoa(r)) {
+			rd.cancelled = true
+			anyCancel = true
 			rd.cancel()
 		}
+	}
+	if anyCancel {
 		zz.Quiesce()
-		for _, rd := range readers {
-			zz.Assert(rd.done, "a cancelled context releases the caller")
-		}
 		zz.Reach("cancelled")
+	}
+	for _, rd := range readers {
+		idx := int(rd.target - cfg.base)
+		if rd.cancelled {
+			zz.Assert(rd.done, "a cancelled context releases the caller")
+		} else if !appended[idx] && rd.target > s.Height() {
+			zz.Reach("still-waiting")
+			zz.Assert(!rd.done, "a caller waiting for a height above Height stays blocked until the header is appended or its own context ends")
+		}
 	}
 	d.gates = false
 	for _, rd := range readers {
